@@ -299,7 +299,24 @@ def monitors_history(rep, d, mu, cov, x, X, i):
     Xn = np.round((X[::-1] * 0.75 - 1.0) * 64) / 64 + np.arange(X.shape[1]) * 0.125
     ds = fd.dense(x, X)                       # (a separate object: the caller goes on using d)
     ds.mean(); ds.covariance(); ds.center()
+    orders = [o for o in (1, 2, 3) if X.shape[1] > o + 1]
+    for o in orders:
+        ds.noise_variance(order=o)
     ds.values = DenseValues(Xn)
+    for o in orders:
+        # the noise variance, too, is the estimate of the curves the object holds NOW (same object, same order, second call)
+        nv_new, nv_ref = float(ds.noise_variance(order=o)), float(fd.dense(x, Xn).noise_variance(order=o))
+        if not abs(nv_new - nv_ref) <= 1e-12 * max(1.0, abs(nv_ref)):
+            bad.append(f"noise_variance(order={o}) after replacing the curves through the values setter is {nv_new!r}; a fresh "
+                       f"dataset with the same curves gives {nv_ref!r}")
+    if orders:
+        di = fd.dense(x, X)
+        di.noise_variance(order=orders[0])
+        np.asarray(di.values)[...] = Xn               # the curves edited in place
+        nv_new, nv_ref = float(di.noise_variance(order=orders[0])), float(fd.dense(x, Xn).noise_variance(order=orders[0]))
+        if not abs(nv_new - nv_ref) <= 1e-12 * max(1.0, abs(nv_ref)):
+            bad.append(f"noise_variance(order={orders[0]}) after the curves were edited in place is {nv_new!r}; a fresh dataset "
+                       f"with the same curves gives {nv_ref!r}")
     mu3 = np.asarray(ds.mean().values)[0]
     cov3 = np.asarray(ds.covariance().values)[0]
     if np.max(np.abs(mu3 - Xn.mean(axis=0))) > 1e-12 * sc:
